@@ -51,6 +51,9 @@ CHECKS = {
     "C01": dict(level="exploration", technique="runtime monitoring: panic hook + catch_unwind + process-death attribution around instantiate / run_function / forcing of every exported value; shape walker (value against the static type the compiler assigned) over every value produced; acceptance observed, never predicted",
                 text="held on the executions observed: type-directed calls of every standard-library overload with tame and hostile literals, a list of ~150 near-miss programs aimed at the corner rules (callable arity, generic binding over several parameters, bottom type, defaults, forward references, calls through function values), generated core programs and mutants of the 420 shipped scripts were given to the compiler; every accepted one was instantiated and each zero-argument function run under seven limit configurations: each step ended in a value, an error value or a violation, never a panic, abort or hang under limits, and every value (elements forced) had the shape of its static type",
                 note="model-free; memory/time exhaustion without the corresponding limit is the host's business (C10 covers limits); the first 24 elements of each container are forced"),
+    "C03": dict(level="exploration", technique=DIFF + " run on unique names (environments are the specification of lexical scoping) while the source is printed with colliding spellings; output trace through a recording writer; fixed accept/reject probes for forward-declaration gating",
+                text="held on the executions observed: generated programs with functions and lambdas nested up to 7 levels, captures at every ancestor distance up to 7, shadowing and same-scope redefinition of let / parameter / function names before and after closures are created, closures returned, stored in structs, sequences and optionals, passed through map/filter/reduce/sort/partial and called several times, self recursion, recursion through a captured lambda, mutual recursion through forward declarations, defaults with display evaluated at function creation, look-alike identifiers (item1/item01/Item1/item1x, keyword prefixes, 250-character names) agree binding by binding and output line by output line with the reference evaluator; 36 probes show that a function needing an unimplemented forward declaration can be neither called, taken as a value nor wrapped in a lambda before the implementation",
+                note="trusts xrv/corelang.py; functions of one name are not re-declared in a visible scope (overloading is C05); recursive functions are called with 0..3 only; lambda defaults are pure"),
 }
 REASON_PENDING = "check under construction in this round (not yet claimed)"
 
